@@ -47,3 +47,43 @@ Print Assumptions C10_rename_balance.
 Print Assumptions C10_completion_order_independent.
 Print Assumptions C10_aux_order_independent.
 Print Assumptions C10_sorted.
+
+(** ** Text level: what the components reader (Model/Parse.v, tied to FromStr by the exact correspondence of C16) does
+    not look at.  [parse_components s = parse_trimmed (map trim (lines (strip_bom s)))]: the reader sees the text only
+    through its trimmed lines. *)
+From Coq Require Import String.
+From Cteepbd Require Import Model.Text Model.Parse Proofs.ParseFacts.
+Open Scope list_scope.
+
+Theorem C10_text_is_read_by_trimmed_lines : forall s, parse_components s = parse_trimmed (map trim (lines (strip_bom s))).
+Proof. exact parse_components_lines. Qed.
+
+(** surrounding white space (any Unicode white space, on any line) *)
+Theorem C10_text_whitespace : forall ls (w1 w2 : str -> str),
+  (forall l, forallb is_ws (w1 l) = true /\ forallb is_ws (w2 l) = true) ->
+  map trim (map (fun l => w1 l ++ l ++ w2 l) ls) = map trim ls.
+Proof. exact padded_lines_same. Qed.
+
+(** blank lines, comment lines, a header line: any line that is neither metadata nor data, anywhere *)
+Theorem C10_text_ignored_line : forall a l b,
+  is_meta_line l = false -> is_data_line l = false -> parse_trimmed (a ++ l :: b) = parse_trimmed (a ++ b).
+Proof. exact ignored_line_same. Qed.
+
+Example C10_ignored_lines_exist :
+  let ign l := (negb (is_meta_line l) && negb (is_data_line l))%bool in
+  ign [] = true /\ ign (cs "# un comentario, con comas") = true /\ ign (cs "vector, tipo, src_dst") = true /\ ign (cs "#") = true.
+Proof. cbv zeta. repeat split; reflexivity. Qed.
+
+(** a byte order mark *)
+Theorem C10_text_bom : forall s, match s with c :: _ => c <> 65279%N | [] => True end -> parse_components (65279%N :: s) = parse_components s.
+Proof. exact bom_same. Qed.
+
+(** CR LF line ends: the CR is removed with the LF *)
+Theorem C10_text_crlf : forall l, strip_cr (l ++ [13%N]) = l.
+Proof. exact strip_cr_crlf. Qed.
+
+Print Assumptions C10_text_is_read_by_trimmed_lines.
+Print Assumptions C10_text_whitespace.
+Print Assumptions C10_text_ignored_line.
+Print Assumptions C10_text_bom.
+Print Assumptions C10_text_crlf.
